@@ -141,6 +141,36 @@ def mk(kind, *a):
         ad = Address((wc, acc))
         text = ad.to_str(is_user_friendly=bool(friendly))
         return Op(desc, lambda b: b.store_address(text), RBITS.addr_std(wc, acc, None), 0, lambda s: s.load_address(), lambda s: s.preload_address(), ad, eq=_addr_eq)
+    if kind == 'addr_route':    # the same address value through the other routes that serialise / copy an Address object
+        wc, hx, anycast, route = a
+        acc = bytes.fromhex(hx)
+        ad = Address((wc, acc))
+        if anycast is not None:
+            ad.set_anycast(anycast[0], anycast[1])
+        store = {'to_cell': lambda b: b.store_cell(ad.to_cell()),
+                 'to_cell_slice': lambda b: b.store_slice(ad.to_cell().begin_parse()),
+                 'copy': lambda b: b.store_address(Address(ad)),
+                 'copy_to_cell': lambda b: b.store_cell(Address(ad).to_cell())}[route]
+        return Op(desc, store, RBITS.addr_std(wc, acc, tuple(anycast) if anycast else None), 0,
+                  lambda s: s.load_address(), lambda s: s.preload_address(), ad, eq=_addr_eq)
+    if kind == 'addr_hist':     # an address text whose FIRST parse in the process is held by the caller and edited; later uses of the text
+        wc, hx, friendly, anycast, edit = a
+        acc = bytes.fromhex(hx)
+        plain = Address((wc, acc))
+        text = plain.to_str(is_user_friendly=bool(friendly))
+
+        def store(b):
+            held = Address(text)
+            if edit == 'anycast':
+                held.set_anycast(anycast[0], anycast[1])
+            elif edit == 'wc':
+                held.wc = (wc + 1) if wc < 127 else 0
+            elif edit == 'hash':
+                held.hash_part = bytes(32)
+            elif edit == 'loaded-anycast':     # the object a slice handed out for these bits is edited
+                Builder().store_address(text).end_cell().begin_parse().load_address().set_anycast(anycast[0], anycast[1])
+            return b.store_address(text)
+        return Op(desc, store, RBITS.addr_std(wc, acc, None), 0, lambda s: s.load_address(), lambda s: s.preload_address(), plain, eq=_addr_eq)
     if kind == 'snake':
         hx, = a
         data = bytes.fromhex(hx)
